@@ -110,10 +110,12 @@ CLAIMS = {
              "with ENOSYS, EINVAL, EACCES and the over-mounted object must still never be returned (the verification fails closed); "
              "the handle constructors (new, new_unmasked and the explicit ones) are recorded and replayed as root, as root of a "
              "user namespace that cannot fsopen procfs, and as uid 65534: whoever can create a private procfs instance gets one "
-             "from new().",
+             "from new(); one mount racing with a non-following lookup: for handles on the host mount the over-mount of the looked-up "
+             "entry is placed before the k-th system call of the lookup, for every k (2 000 schedules): EXDEV or the genuine "
+             "object, never the over-mount.",
         note="MntIdTruthful (statx mount ids identify mounts) is the kernel fact the theorem rests on. open_follow on a non-magic "
-             "procfs symlink whose *target* is over-mounted returns the over-mount (finding F12, known, not repaired). Racing "
-             "mounts are covered by the theorem (any answers), not by the suite.",
+             "procfs symlink whose *target* is over-mounted returns the over-mount (finding F12, known, not repaired). Several "
+             "racing mounts in one lookup, and unmounts, are covered by the theorem (any answers) only.",
         technique="Lean 4 proof (history inversion over all environments) + over-mount layout differential in a mount namespace",
         ref="DESIGN.md §8 C06"),
     "C07": dict(
